@@ -42,10 +42,35 @@ class Node(NodeBase):
         return w.lazy_default(self)
 
     def __hash__(self):
-        return 1000003 * self.uid + 17
+        # A constant: deterministic under any PYTHONHASHSEED and address layout
+        # (set order is insertion order), and - unlike a hash computed from uid -
+        # valid while the object is being unpickled or deep-copied inside a cycle
+        # (a set is refilled before the state of its members is restored; a hash
+        # read from restorable state would file the member under the wrong bucket,
+        # which is Python's behaviour for any such class and nothing traits decides)
+        return 17
 
     def __repr__(self):
         return "N%d" % self.uid
+
+
+class EqNode(Node):
+    """A "value object": equality by ``eqkey`` (not identity), so that a link
+    can be re-assigned a distinct object that compares equal to the old one.
+    The hash stays per object; these nodes are never put into sets or used as
+    dictionary keys."""
+    eqkey = Int()
+
+    def __eq__(self, other):
+        return isinstance(other, EqNode) and other.eqkey == self.eqkey
+
+    def __ne__(self, other):
+        return not self.__eq__(other)
+
+    __hash__ = Node.__hash__
+
+    def __repr__(self):
+        return "E%d" % self.uid
 
 
 class ValuelessNode(NodeBase):
@@ -55,8 +80,7 @@ class ValuelessNode(NodeBase):
     child = Instance(NodeBase)
     children = List(Instance(NodeBase))
 
-    def __hash__(self):
-        return 1000003 * self.uid + 17
+    __hash__ = Node.__hash__
 
     def __repr__(self):
         return "V%d" % self.uid
@@ -71,14 +95,14 @@ class LooseNode(NodeBase):
     child = Instance(NodeBase)
     children = Any()
 
-    def __hash__(self):
-        return 1000003 * self.uid + 17
+    __hash__ = Node.__hash__
 
     def __repr__(self):
         return "L%d" % self.uid
 
 
-NODE_CLASSES = {"Node": Node, "ValuelessNode": ValuelessNode, "LooseNode": LooseNode}
+NODE_CLASSES = {"Node": Node, "EqNode": EqNode, "ValuelessNode": ValuelessNode,
+                "LooseNode": LooseNode}
 
 
 # ---------------------------------------------------------------------------
@@ -86,11 +110,12 @@ NODE_CLASSES = {"Node": Node, "ValuelessNode": ValuelessNode, "LooseNode": Loose
 
 class MNode:
     __slots__ = ("uid", "cls", "value", "label", "child", "lazy", "children", "table",
-                 "group", "grid", "extra", "has_extra")
+                 "group", "grid", "extra", "has_extra", "eqkey")
 
     def __init__(self, uid, cls="Node"):
         self.uid = uid
         self.cls = cls
+        self.eqkey = (uid % 2) if cls == "EqNode" else None
         self.value = UNSET
         self.label = UNSET
         self.child = UNSET
@@ -105,13 +130,23 @@ class MNode:
     def __hash__(self):
         return self.uid * 31 + 7
 
+    def __eq__(self, other):
+        # mirrors the objects: identity, or equality by key for "value objects"
+        if self is other:
+            return True
+        return (self.eqkey is not None and isinstance(other, MNode)
+                and other.eqkey == self.eqkey)
+
+    def __ne__(self, other):
+        return not self.__eq__(other)
+
     def __repr__(self):
         return "M%d" % self.uid
 
     @property
     def full(self):
         """Has the full set of links/containers of ``Node``."""
-        return self.cls in ("Node", "PNode")
+        return self.cls in ("Node", "PNode", "EqNode")
 
     def traits(self):
         names = ["uid", "value", "label", "child", "lazy", "children", "table", "group", "grid"]
@@ -468,7 +503,7 @@ class World:
         n = None
         if self.sut_on:
             klass = NODE_CLASSES[cls]
-            n = klass(uid=uid)
+            n = klass(uid=uid, eqkey=uid % 2) if cls == "EqNode" else klass(uid=uid)
         m = MNode(uid, cls)
         self.by_uid[uid] = [n, m]
         if pooled:
@@ -624,7 +659,10 @@ class World:
             else:
                 changed, old_val = newm is not None, None
         else:
-            changed, old_val = (oldm is not newm), old
+            # (Instance traits compare by equality: identity for plain nodes)
+            changed = not (oldm is newm or (oldm is not None and newm is not None
+                                            and oldm == newm))
+            old_val = old
         return [Change("trait", mobj=m, obj=n, name=name, changed=changed, old=old_val, new=newn)]
 
     def op_set_child(self, op, step):
@@ -701,8 +739,7 @@ class World:
     @staticmethod
     def _cont_differs(a, b):
         if isinstance(a, list):
-            return len(a) != len(b) or any(
-                (x != y) if isinstance(x, list) else (x is not y) for x, y in zip(a, b))
+            return len(a) != len(b) or any(x != y for x, y in zip(a, b))
         return a != b
 
     def _uids(self, refs):
@@ -764,6 +801,22 @@ class World:
                 return []
             inner_op = dict(inner_op)
             inner_op["v"] = {"t": "obj", "i": mcont[inner_op["v"]["at"] % len(mcont)].uid}
+        elif ckind == "list" and mcont:
+            # item specs carrying "at" name an object that is in the list now: the
+            # mutation keeps / repeats / permutes current items (removed and added
+            # in one event, with possibly different multiplicities)
+            def cur_items(x):
+                if isinstance(x, dict):
+                    if x.get("t") == "ref" and "at" in x:
+                        it = mcont[x["at"] % len(mcont)]
+                        if isinstance(it, MNode):
+                            return {"t": "obj", "i": it.uid}
+                        return {k: v for k, v in x.items() if k != "at"}
+                    return {k: cur_items(v) for k, v in x.items()}
+                if isinstance(x, list):
+                    return [cur_items(v) for v in x]
+                return x
+            inner_op = cur_items(inner_op)
         iop = self.resolve_specs(inner_op)
         if ckind == "list":
             before = list(mcont)
@@ -978,8 +1031,13 @@ def ref_spec(r, npool, fresh_rate=0.15):
 
 
 def gen_list_inner(r, npool):
+    keep = r.random() < 0.3      # this op re-uses items that are in the list already
+
     def item():
-        return ref_spec(r, npool)
+        sp = ref_spec(r, npool)
+        if keep and sp.get("t") == "ref" and r.random() < 0.7:
+            sp["at"] = r.randrange(4)
+        return sp
     L = list(range(r.choice([0, 1, 2, 2, 3, 4])))     # stand-in for the unknown length
     op = c05.gen_list_op(r, L, item, LIST_KINDS)
     if op["k"] == "remove":
